@@ -35,6 +35,9 @@ structure St where
   evloop : Slot EvLoop := ⟨{}, 0⟩
   nctx : Nat := 0
   sockh : Slot Two := ⟨{}, 0⟩
+  evpipe : Slot Two := ⟨{}, 0⟩
+  sock : Slot One := ⟨{}, 0⟩
+  ffctl : Slot One := ⟨{}, 0⟩
   alog : Slot Chan := ⟨{}, 0⟩
 
 def sched (faults : List Nat) : Sched := fun k => faults.contains (k + 1)
@@ -335,6 +338,24 @@ def stepLine (s : St) (toks : List String) : St × String :=
   | "sockh.destroy" =>
     if !canDestroy s.sockh.st then (s, "bad-op") else
     doVoid s 3 (sockhDestroy s.sockh.obj h) (fun s x => { s with sockh := x }) Two.show
+  | "evpipe.init" =>
+    if !canInit s.evpipe.st then (s, "bad-op") else
+    doInit s (evpipeInit f h) (fun s x => { s with evpipe := x }) Two.show
+  | "evpipe.destroy" =>
+    if !canDestroy s.evpipe.st then (s, "bad-op") else
+    doVoid s 3 (evpipeDestroy s.evpipe.obj h) (fun s x => { s with evpipe := x }) Two.show
+  | "sock.create" =>
+    if !canInit s.sock.st then (s, "bad-op") else
+    doInit s (sockCreate f h) (fun s x => { s with sock := x }) One.show
+  | "sock.close" =>
+    if !canDestroy s.sock.st then (s, "bad-op") else
+    doVoid s 3 (sockClose s.sock.obj h) (fun s x => { s with sock := x }) One.show
+  | "ffctl.init" =>
+    if !canInit s.ffctl.st then (s, "bad-op") else
+    doInit s (oneInit f (decide (a2 ≠ 0 ∧ a1 > 0)) h) (fun s x => { s with ffctl := x }) One.show
+  | "ffctl.destroy" =>
+    if !canDestroy s.ffctl.st then (s, "bad-op") else
+    doVoid s 3 (oneDestroy true s.ffctl.obj h) (fun s x => { s with ffctl := x }) One.show
   -- log
   | "alog.init" =>
     if !canInit s.alog.st then (s, "bad-op") else
